@@ -7,12 +7,17 @@ def run(rep, tier, seed):
     pr2 = vlib.coq_check('C01b')      # lcdb's own input selection always yields guarded steps (Policy.v)
     pr['theorems'] += pr2['theorems']; pr['ok'] = pr['ok'] and pr2['ok']; pr['closed_count'] = pr.get('closed_count', 0) + pr2.get('closed_count', 0)
     pr['axioms'] = sorted(set(pr['axioms']) | set(pr2['axioms'])); pr['log'] += pr2['log']; pr['file'] += ' + coq/theories/Properties_C01b.v'
+    pr3 = vlib.coq_check('C01c')      # LRU cache transparent/bounded, skiplist = sorted list, memtable_get = seek (Cache.v, Skiplist.v, Memtable.v)
+    pr['theorems'] += pr3['theorems']; pr['ok'] = pr['ok'] and pr3['ok']; pr['closed_count'] = pr.get('closed_count', 0) + pr3.get('closed_count', 0)
+    pr['axioms'] = sorted(set(pr['axioms']) | set(pr3['axioms'])); pr['log'] += pr3['log']; pr['file'] += ' + coq/theories/Properties_C01c.v'
     rep.add_proof(pr)
     if not pr['ok']:
         rep.violation({'kind': 'proof-broken', 'log': pr['log'][-3000:], 'forbidden': pr['forbidden']}, suffix='no-failing-input-found')
     nh, nops = (32, 90) if tier == 'quick' else (1200, 300)
     import histgen
     k2check.run_k2(rep, 'C01', tier, seed, 'c01', nh, nops, extra_histories=[histgen.straddle_history(40, 0), histgen.straddle_history(24, 1)] + histgen.corpus_histories())
+    import extra_c01
+    extra_c01.run_extra(rep, tier, seed)      # K1 ties of the LRU cache, the skiplist (incl. PRNG heights) and the memtable
     rep.cov['rule'] = ('histories of put/del/batch/get/has/snapshot/flush/compact-range/compact/reopen/scan/iterate over colliding keys, '
                        'values 0 B..70 KiB(+1 MiB), random option configurations; every observed version edit is replayed on the Coq engine '
                        'model as a guarded step and every read is compared with the model get and the sorted-map spec; '
